@@ -10,6 +10,8 @@ PEER_CONNECT_TIMEOUT: float = 10
 """Direct connection timeout"""
 PEER_INDIRECT_CONNECT_TIMEOUT: float = 60
 """Indirect connection timeout"""
+PEER_ADDRESS_TIMEOUT: float = 30
+"""Timeout waiting for the server to return the address of a peer"""
 PEER_INIT_TIMEOUT: float = 5
 """Timeout waiting for Peer Initialization message"""
 PEER_READ_TIMEOUT: float = 60
